@@ -331,8 +331,10 @@ _SIMPLE = ['x%d = %d', 'return x%d', 'pass', 'foo(%d, y)', 'yield x%d', 'import 
 def _simple(rng, pad):
     t = rng.choice(_SIMPLE)
     n = rng.randrange(10)
-    if t.count('%') == 2:
+    if '%s' in t:
         return pad + (t % (n, pad)) + '\n'
+    if t.count('%d') == 2:
+        return pad + (t % (n, rng.randrange(10))) + '\n'
     if '%d' in t:
         return pad + (t % n) + '\n'
     return pad + t + '\n'
